@@ -101,6 +101,7 @@ func ruleArmTwins(prog *Program, rep *Report, a, b feSpec, floor int) {
 
 // armTwinAccepted: differences confirmed by reading; key -> {only in a, only in b, reason}.
 var armTwinAccepted = map[string][3]string{
+	"oj.Parser=gen.Parser:numComma":       {"if 0 < len(p.starts)", "if len(p.starts) == 0", "the same test written from the other side: oj adds the number and then rejects a comma outside a container in the else branch, gen rejects it first (the order was changed by the fix for the top-level comma); Engine A follows both"},
 	"oj.Parser=oj.Tokenizer:openObject":   {"R.mi++", "", "the tokenizer builds no maps, so it has no cursor into recycled maps (Reuse option) to advance"},
 	"sen.Parser=sen.Tokenizer:openObject": {"R.mi++", "", "as for oj: the tokenizer builds no maps"},
 	"sen.Parser=sen.Tokenizer:tokenStart": {"if b == '('", "", "sen.Tokenizer has no arms for the parenthesised forms at all (known findings of A-noarm)"},
